@@ -37,6 +37,18 @@ IMMUTABLE_CALLS = {"int", "float", "str", "bool", "len", "max", "min", "sum", "t
                    "np.mean", "np.argmax", "np.argsort", "np.random.randint", "id", "abs", "round"}
 
 
+# call -> FunctionDef of the package function it denotes (installed by core.Repo; None = no interprocedural summaries)
+RESOLVER = None
+_SUMMARIES: dict = {}
+_SUMMARY_BUSY: set = set()
+
+
+def set_resolver(fn) -> None:
+    global RESOLVER
+    RESOLVER = fn
+    _SUMMARIES.clear()
+
+
 class OwnEval:
     """Evaluate the ownership of an expression at a CFG node of one function."""
 
@@ -45,6 +57,37 @@ class OwnEval:
         self.cfg = cfg
         self.fresh_ctor_names = fresh_ctor_names or set()
         self.alias_roots = alias_roots or set()
+
+    def _summary(self, call: ast.Call, _seen) -> Optional[Own]:
+        """Ownership of the result of a call to a function of the package (resolved by RESOLVER, set by the program model): the join over
+        its `return` expressions, evaluated in the callee with its parameters as live objects.  Two levels deep."""
+        if RESOLVER is None or self.depth >= 2:
+            return None
+        fd = RESOLVER(call)
+        if fd is None:
+            return None
+        key = id(fd)
+        if key in _SUMMARY_BUSY:
+            return None
+        cached = _SUMMARIES.get(key)
+        if cached is None:
+            _SUMMARY_BUSY.add(key)
+            try:
+                ccfg = CFG(fd)
+                sub = OwnEval(ccfg, self.fresh_ctor_names, set())
+                sub.depth = self.depth + 1
+                r: Optional[Own] = None
+                for n in ccfg.live_nodes():
+                    if n.kind == "stmt" and isinstance(n.ast, ast.Return):
+                        o = sub.own(n.ast.value, n) if n.ast.value is not None else Own(FRESH, "None")
+                        r = o if r is None else r.join(o)
+                cached = r if r is not None else Own(FRESH, "returns None")
+            finally:
+                _SUMMARY_BUSY.discard(key)
+            _SUMMARIES[key] = cached
+        return Own(cached.level, f"{short(call, 60)} returns [{cached.why}]")
+
+    depth = 0
 
     def own(self, e: ast.AST, at: Node, _seen: Optional[Set[Tuple[int, int]]] = None) -> Own:
         _seen = _seen or set()
@@ -102,6 +145,9 @@ class OwnEval:
                 return Own(ALIAS, f"getattr(...) returns the live attribute: {short(e, 80)}")
             if isinstance(e.func, ast.Attribute) and la in ("state_dict",):
                 return Own(ALIAS, f"{short(e, 80)} returns references to live state tensors")
+            summ = self._summary(e, _seen)
+            if summ is not None:
+                return summ
             return Own(UNKNOWN, f"result of {short(e, 80)}")
         if isinstance(e, (ast.ListComp, ast.GeneratorExp, ast.SetComp)):
             o = self.own(e.elt, at, _seen)
